@@ -66,7 +66,12 @@ def set_square():
     return {"package": "inkayaku_core", "append_to": "core/src/constants/square.rs", "module": _read("kani/square.rs")}
 
 
+def set_history():
+    return {"package": "inkayaku_engine_core", "append_to": "engine_core/src/engine/zobrist_history.rs", "module": _read("kani/history.rs")}
+
+
 SETS = {
+    "history": set_history,
     "square": set_square,
     "eval": set_eval,
     "zobrist": set_zobrist,
@@ -86,6 +91,10 @@ def _table_harnesses():
 
 HARNESSES = {
     "tables": _table_harnesses(),
+    "history": {
+        "count_repetitions_bounded_10": {"complete": False, "bound": "current ply index < 10 (symbolic hashes for plies 0..9, any u16 half-move clock); loops unwound 12 times with unwinding assertions",
+                                         "note": "bounded stand-in next to the unbounded Verus proof of unit history"},
+    },
     "square": {
         "from_chars_total_and_exact": {"complete": True, "note": "all char x char pairs, loop-free"},
     },
@@ -101,6 +110,8 @@ HARNESSES = {
     # set -> harness -> meta
     "rules": {
         "wf_preserved": {"complete": True, "note": "full symbolic position (12 bitboards, rights, side, e.p., clocks) and packed move; loop-free"},
+        "make_move_emits_wf": {"complete": True, "note": "real Bitboard::make_move on a full symbolic position and a symbolic consistent request; loop-free"},
+        "make_is_rules_succ_and_unmake_restores": {"complete": True, "note": "real Bitboard::make / unmake on a full symbolic position and any packed move satisfying move_wf; loop-free"},
     },
 }
 
